@@ -72,11 +72,17 @@ class Collective:
         collective = []
         collective_matrix = np.full((len(events), len(events)), False)
 
+        # Jumps are sorted by stop time, so a later jump can start
+        # at most `max_transit` steps earlier than the jump before it stops
+        max_transit = (events['stop time'] - events['start time']).max()
+
         # Compare all pairs
         for i, event_i in events[:-1].iterrows():
             for j, event_j in events[i + 1 :].iterrows():
-                if event_j['start time'] - event_i['stop time'] > max_steps:
+                if event_j['stop time'] - max_transit - event_i['stop time'] > max_steps:
                     break
+                if event_j['start time'] - event_i['stop time'] > max_steps:
+                    continue
                 if event_i['start time'] - event_j['stop time'] > max_steps:
                     continue
                 if event_i['atom index'] == event_j['atom index']:
